@@ -77,8 +77,9 @@ CFG = {
                   "<= 12 calls) against the real Instance are judged by the verified checker on every run; every "
                   "returned artifact / ParameterData slice is retained and read again later (end of window, after "
                   "later updates, by a slow consumer during updates) and must still show the value it showed at "
-                  "response time; the harness-defined nodes count clients inside their Process (mutual exclusion "
-                  "observed directly); at every quiescent point each producer of the live instance must agree with a "
+                  "response time; the harness-defined nodes and probe parameters count clients inside Process / "
+                  "ApplyMessage / ToMessage (mutual exclusion observed directly, also between ParameterData and "
+                  "Artifact); producers may panic (RPanic exactly when the linearization state has a bad value); at every quiescent point each producer of the live instance must agree with a "
                   "fresh instance given the same parameter values (also for producers with failing nodes and for the "
                   "repository's glTF scene producer)",
     "level_note": "The theorems are about the lock-level model parametrised by the generated lock facts (a syntactic "
@@ -92,14 +93,18 @@ CFG = {
                  "facts (T) + vm_compute judgement of recorded concurrent histories (H) + race detector sampling",
     "design_ref": "DESIGN.md §4 C13",
     "n_quick": 500, "n_thorough": 20000, "search_n": 2400,
-    "rule": "n/12 cold-start windows first (each in a child process on fresh instances, 12 attempts: all clients "
-            "released together on node ids never looked up before; a dying child = failed calls), then "
-            "windows of one epoch = one Instance (6 fixed + random graph shapes: 4-6 parameters of types int/float64/"
+    "rule": "n/16 cold-start windows first (each in a child process on fresh instances, 8 attempts: all clients "
+            "released together on node ids never looked up before, 3/4 with File/Image parameters backed by a command "
+            "line flag whose lazy first read is contended between ParameterData and a dependent Artifact; a dying "
+            "child = failed calls), then "
+            "windows of one epoch = one Instance (7 fixed + random graph shapes: 4-6 parameters of types int/probe (a "
+            "parameter.Int reporting ApplyMessage/ToMessage to the critical-section probe)/float64/"
             "string/bool/File/Value[[]int]/Image (uniform gray squares uploaded as PNG gray/RGBA/best-compression or "
             "JPEG, ParameterData and image artifacts judged by decoded content) (slice payloads whose length depends on the value: equal and smaller "
             "re-uploads); 2-5 producers: text producers listing 2-5 parameters through shared and two-level join "
             "nodes, some parameters listed twice through different paths, loader-like nodes that FAIL (zero value + "
-            "error) for int values divisible by 3 behind a fallback node, basics.Binary on File parameters, a "
+            "error) for int values divisible by 3 behind a fallback node, nodes that PANIC (division by zero) for int "
+            "values divisible by 4 (the client recovers: response RPanic, specified by ArtifactP), basics.Binary on File parameters, a "
             "slice-keeping artifact on []int parameters, and the repository's gltf.ArtifactNode over 2-3 gltf.ModelNode "
             "sharing one mesh node and one gltf.MaterialNode that depend on an int and a float parameter) and 1-8 client goroutines; every slice parameter is "
             "re-uploaded once and read at epoch start (retained set); per window <= 12 calls "
